@@ -62,6 +62,7 @@ import (
 	"fmt"
 	"reflect"
 	"testing"
+	"time"
 
 	"github.com/antonmedv/expr"
 )
@@ -85,7 +86,14 @@ func TestVerifReplay(t *testing.T) {
 			if err != nil {
 				t.Fatalf("VIOLATED: %q does not compile: %v", src, err)
 			}
-			out, err := expr.Run(p, env)
+			var out interface{}
+			done := make(chan struct{})
+			go func() { out, err = expr.Run(p, env); close(done) }()
+			select {
+			case <-done:
+			case <-time.After(5 * time.Second):
+				t.Fatalf("VIOLATED: %q on %v does not terminate", src, xs)
+			}
 			if err != nil {
 				t.Fatalf("VIOLATED: %q on %v fails: %v", src, xs, err)
 			}
@@ -165,6 +173,34 @@ func TestVerifReplay(t *testing.T) {
 			}
 			return r
 		}())
+	}
+	// the collection operand of a nested builtin is evaluated in the enclosing scope; an inner early exit closes its scope
+	groups := [][]int{{1, 5}, {7}, {}, {2, 9, 4}}
+	genv := map[string]interface{}{"Groups": groups}
+	for _, c := range []struct {
+		src  string
+		want interface{}
+	}{
+		{"map(Groups, {count(#, {# > 3})})", []interface{}{1, 1, 0, 2}},
+		{"filter(Groups, {count(#, {# > 3}) == 1})", []interface{}{[]int{1, 5}, []int{7}}},
+		{"all(Groups, {count(#, {# > 100}) == 0})", true},
+		{"any(1..3, {any([3], {# == 3}) and # == 2})", true},
+		{"count(1..3, {any(1..3, {# == 3}) and # == 2})", 1},
+		{"map(1..3, {any(1..3, {# == 2}) ? # * 10 : 0})", []interface{}{10, 20, 30}},
+	} {
+		done := make(chan struct{})
+		var out interface{}
+		var err error
+		go func() { out, err = expr.Eval(c.src, genv); close(done) }()
+		select {
+		case <-done:
+		case <-time.After(5 * time.Second):
+			t.Fatalf("VIOLATED: %s does not terminate", c.src)
+		}
+		if err != nil {
+			t.Fatalf("VIOLATED: %s fails: %v", c.src, err)
+		}
+		same(c.src, out, c.want)
 	}
 	t.Logf("battery passed")
 }
